@@ -530,8 +530,9 @@ func (w *World) mint(fn, exec, leaf, elem int, t int, poison bool, inputs []int6
 	}
 	switch {
 	case IsIface(t):
-		// a result declared with interface type I<j>: K<j> implements it
-		p = kNew[t-TIface](s)
+		// a result declared with interface type I<j>: K<j mod 4> implements
+		// it (also the embedding interfaces I4..I7)
+		p = kNew[(t-TIface)%NumI](s)
 	case isVal(t):
 		p = vNew[t](s)
 	case isAlt(t):
